@@ -245,8 +245,13 @@ func bulkSpecs() []spec {
 		p, _ := e.Coinswap.GetPool(s.Ctx, cstypes.GetPoolId("btc"))
 		var ids []string
 		for i := 0; i < bulkN; i++ {
+			// every other pool pays in two denominations (their rule keys share the pool's prefix)
+			rpb, tot := sdk.NewCoins(mc.C("eth", 1)), sdk.NewCoins(mc.C("eth", int64(100+i)))
+			if i%2 == 1 {
+				rpb, tot = sdk.NewCoins(mc.C("btc", 2), mc.C("eth", 1)), sdk.NewCoins(mc.C("btc", int64(300+i)), mc.C("eth", int64(100+i)))
+			}
 			o := s.Deliver(e, fmt.Sprintf("bulk-farm-%03d", i), &farmtypes.MsgCreatePool{Description: "p", LptDenom: p.LptDenom, StartHeight: s.Ctx.BlockHeight(),
-				RewardPerBlock: sdk.NewCoins(mc.C("eth", 1)), TotalReward: sdk.NewCoins(mc.C("eth", int64(100+i))), Editable: true, Creator: mc.Addr("A").String()})
+				RewardPerBlock: rpb, TotalReward: tot, Editable: true, Creator: mc.Addr("A").String()})
 			bulkMust(o, "create farm pool")
 			id := evAttr(o, farmtypes.EventTypeCreatePool, farmtypes.AttributeValuePoolId)
 			if id == "" {
